@@ -7,3 +7,4 @@ pub mod json;
 pub mod schema_mut;
 pub mod operation;
 pub mod opmutate;
+pub mod opfixture;
